@@ -1,13 +1,20 @@
+// C01 correspondence + oracle: the amount checks of /repo
+// (tx.CheckTransactionOutput, checkAssetPrecision, tx.CheckTransactionFee,
+// getTransactionFee, blockchain.GetTxFee) against coq/model/C01_Fee.v, and the
+// property oracle "accepted => exact sum(outputs) <= exact sum(spent outputs)".
 package main
 
 import (
 	"fmt"
+	"math/big"
 
+	"github.com/elastos/Elastos.ELA/blockchain"
 	elacommon "github.com/elastos/Elastos.ELA/common"
 	"github.com/elastos/Elastos.ELA/common/config"
 	"github.com/elastos/Elastos.ELA/core"
 	"github.com/elastos/Elastos.ELA/core/transaction"
 	common2 "github.com/elastos/Elastos.ELA/core/types/common"
+	"github.com/elastos/Elastos.ELA/core/types/interfaces"
 	"github.com/elastos/Elastos.ELA/core/types/outputpayload"
 	"github.com/elastos/Elastos.ELA/core/types/payload"
 
@@ -15,21 +22,624 @@ import (
 	"verifharness/lib"
 )
 
+type kind int
+
+const (
+	kStd kind = iota
+	kNone
+	kActivate
+	kSkip // CheckTransactionOutput needs chain state (or coinbase: outside the property)
+)
+
+var kindName = map[kind]string{kStd: "KStd", kNone: "KNone", kActivate: "KActivate"}
+
+// shape of CheckTransactionOutput per transaction type (everything not listed: the per-output loop)
+var kinds = map[common2.TxType]kind{
+	common2.CoinBase: kSkip, common2.SideChainPow: kSkip, common2.CRCAppropriation: kSkip, common2.ExchangeVotes: kSkip,
+	common2.IllegalProposalEvidence: kNone, common2.IllegalVoteEvidence: kNone, common2.IllegalBlockEvidence: kNone,
+	common2.IllegalSidechainEvidence: kNone, common2.InactiveArbitrators: kNone, common2.UpdateVersion: kNone,
+	common2.NextTurnDPOSInfo: kNone, common2.RevertToPOW: kNone, common2.RevertToDPOS: kNone,
+	common2.RecordSponsor: kNone, common2.NFTDestroyFromSideChain: kNone, common2.ProposalResult: kNone,
+	common2.ActivateProducer: kActivate,
+}
+
+// types whose CheckTransactionOutput has its own output-payload rule: only OTNone outputs are generated for them
+var ownPayloadRule = map[common2.TxType]bool{
+	common2.TransferAsset: true, common2.WithdrawFromSideChain: true,
+	common2.ReturnSideChainDepositCoin: true, common2.TransferCrossChainAsset: true,
+}
+
+type outSpec struct {
+	val   int64
+	asset bool
+	pfx   byte
+	spec  bool // hash is all-zero / CR assets / CRC expenses
+	hash  elacommon.Uint168
+	otype common2.OutputType
+}
+
+const (
+	p62 = int64(1) << 62
+	max = int64(^uint64(0) >> 1)
+	min = -max - 1
+)
+
+var amountPool = []int64{0, 0, 1, 1, 2, 99, 100, 101, 10000, 9999, 1 << 31, 1<<31 + 1, 100000000, 3300000000000000,
+	p62 - 1, p62, p62 + 1, p62 / 2, 3 * (p62 / 2), max, max - 1, max - 100, max / 3, -1, -100, min, min + 1, -p62}
+
+func pickAmount(r *lib.Rng) int64 {
+	switch r.Intn(10) {
+	case 0, 1, 2, 3:
+		return amountPool[r.Intn(len(amountPool))]
+	case 4, 5:
+		return int64(r.Intn(1000000))
+	case 6:
+		return int64(r.U64() >> 1) // large non-negative
+	case 7:
+		return p62 + int64(r.Intn(2001)) - 1000
+	case 8:
+		return max - int64(r.Intn(1000))
+	default:
+		return int64(r.U64()>>1) >> uint(r.Intn(40))
+	}
+}
+
+func bigSum(xs []int64) *big.Int {
+	s := new(big.Int)
+	for _, x := range xs {
+		s.Add(s, big.NewInt(x))
+	}
+	return s
+}
+
+var goodPrefixes = []byte{0x21, 0x12, 0x4b, 0x1f, 0x3f}
+
+func genOut(r *lib.Rng, val int64, allowBad bool, allowType bool) outSpec {
+	o := outSpec{val: val, asset: true, otype: common2.OTNone}
+	o.pfx = goodPrefixes[r.Intn(len(goodPrefixes))]
+	copy(o.hash[:], r.Bytes(21))
+	o.hash[0] = o.pfx
+	if allowBad {
+		switch r.Intn(40) {
+		case 0:
+			o.asset = false
+		case 1:
+			o.pfx = 0x67 // CRDID prefix: not accepted for outputs
+			o.hash[0] = o.pfx
+		case 2:
+			o.pfx = byte(r.U64())
+			o.hash[0] = o.pfx
+		case 3:
+			o.hash = elacommon.Uint168{}
+			o.pfx, o.spec = 0, true
+		case 4:
+			o.hash = *config.CRAssetsProgramHash
+			o.pfx, o.spec = o.hash[0], true
+		case 5:
+			o.hash = *config.CRCExpensesProgramHash
+			o.pfx, o.spec = o.hash[0], true
+		case 6:
+			o.pfx = 0 // zero prefix but not the all-zero hash
+			o.hash[0] = 0
+			o.hash[5] |= 1
+		case 7:
+			if allowType {
+				o.otype = common2.OTVote
+			}
+		}
+	}
+	return o
+}
+
+func (o outSpec) toOutput() *common2.Output {
+	out := &common2.Output{AssetID: core.ELAAssetID, Value: elacommon.Fixed64(o.val), ProgramHash: o.hash,
+		Type: o.otype, Payload: &outputpayload.DefaultOutput{}}
+	if !o.asset {
+		out.AssetID[3] ^= 0x55
+	}
+	if o.otype == common2.OTVote {
+		out.Payload = &outputpayload.VoteOutput{}
+	}
+	return out
+}
+
+func (o outSpec) coq() string {
+	return fmt.Sprintf("O %s %s %d %s %d", lib.CoqZi(o.val), lib.CoqBool(o.asset), o.pfx, lib.CoqBool(o.spec), o.otype)
+}
+
+func coqZs(xs []int64) string {
+	ss := make([]string, len(xs))
+	for i, x := range xs {
+		ss[i] = lib.CoqZi(x)
+	}
+	return lib.CoqList(ss)
+}
+
+func verdict(panicked bool, err error) int {
+	if panicked {
+		return 2
+	}
+	if err != nil {
+		return 1
+	}
+	return 0
+}
+
+type txCase struct {
+	tt      common2.TxType
+	height  uint32
+	cah     uint32
+	nft     uint32
+	ver     common2.TransactionVersion
+	minfee  int64
+	outs    []outSpec
+	refs    []int64
+	comment string
+}
+
+// splitInto splits total (>= 0, fits int64) into n non-negative parts.
+func splitInto(r *lib.Rng, total int64, n int) []int64 {
+	parts := make([]int64, n)
+	rest := total
+	for i := 0; i < n-1; i++ {
+		var p int64
+		if rest > 0 {
+			p = int64(r.U64() % uint64(rest+1))
+			if r.Chance(30) {
+				p = rest
+			}
+		}
+		parts[i] = p
+		rest -= p
+	}
+	parts[n-1] = rest
+	return parts
+}
+
 func main() {
 	run := lib.ParseArgs()
 	elaenv.InitLog(run.Out)
-	params := config.GetDefaultParams()
-	var ph elacommon.Uint168
-	ph[0] = 0x21
-	outs := []*common2.Output{}
-	for i := 0; i < 4; i++ {
-		outs = append(outs, &common2.Output{AssetID: core.ELAAssetID, Value: elacommon.Fixed64(1) << 62, ProgramHash: ph, Type: common2.OTNone, Payload: &outputpayload.DefaultOutput{}})
+	rng := lib.NewRng(run.Seed)
+	st := lib.NewStats("C01", "every transaction type whose CheckTransactionOutput/CheckTransactionFee run without chain state (44 of 48; coinbase excluded by the property; SideChainPow, CRCAppropriation, ExchangeVotes need chain state) x heights around CheckAddressHeight/NFTStartHeight x tx version 0/9 x MinTransactionFee 0/100/10000; 0..70 outputs (65535/65536 once) and 1..12 referenced outputs with amounts from {0,1,fee boundary,2^31,2^62+-k,2^63-1-k,negative,random}; generators: balanced (inputs = outputs + fee around the minimum), wrap attack (output or input total congruent to a small value mod 2^64), random. nontrivial = both checks accepted, or rejected only by the overflow guard; distinct by (kind, params, amounts)")
+	sh := &lib.Shards{Dir: run.Out, Imports: "From ELA Require Import model.C01_Fee corr.C01_corr.", CaseType: "C01_corr.case",
+		Mismatch: "C01_corr.mismatches", Scope: "Z", PerShard: 400}
+	id := 0
+	next := func() int { id++; return id }
+
+	// all transaction types the factory knows
+	var types []common2.TxType
+	for t := 0; t < 256; t++ {
+		if _, err := transaction.GetTransaction(common2.TxType(t)); err == nil {
+			if k, ok := kinds[common2.TxType(t)]; !ok || k != kSkip {
+				types = append(types, common2.TxType(t))
+			}
+		}
 	}
-	in := &common2.Input{}
-	in.Previous.TxID[0] = 1
-	tx := transaction.CreateTransaction(common2.TxVersion09, common2.TransferAsset, 0, &payload.TransferAsset{}, nil, []*common2.Input{in}, outs, 0, nil)
-	tx.SetParameters(&transaction.TransactionParameters{Transaction: tx, BlockHeight: 2000000, Config: params})
-	refs := map[*common2.Input]common2.Output{in: {AssetID: core.ELAAssetID, Value: 10000, ProgramHash: ph}}
-	fmt.Println("out:", tx.CheckTransactionOutput())
-	fmt.Println("fee:", tx.CheckTransactionFee(refs), tx.Fee())
+	st.Extra["tx_types_covered"] = len(types)
+
+	origCAH := config.DefaultParams.CheckAddressHeight
+	defer func() { config.DefaultParams.CheckAddressHeight = origCAH }()
+
+	runTx := func(c txCase) (accepted bool) {
+		k := kinds[c.tt] // zero value kStd for unlisted types
+		params := config.GetDefaultParams()
+		params.MinTransactionFee = elacommon.Fixed64(c.minfee)
+		params.DPoSConfiguration.NFTStartHeight = c.nft
+		config.DefaultParams.CheckAddressHeight = c.cah
+		var outs []*common2.Output
+		for _, o := range c.outs {
+			outs = append(outs, o.toOutput())
+		}
+		refs := map[*common2.Input]common2.Output{}
+		var ins []*common2.Input
+		var ph elacommon.Uint168
+		ph[0] = 0x21
+		for i, v := range c.refs {
+			in := &common2.Input{}
+			in.Previous.TxID[0] = byte(i + 1)
+			in.Previous.TxID[1] = byte((i + 1) >> 8)
+			in.Previous.Index = uint16(i)
+			ins = append(ins, in)
+			refs[in] = common2.Output{AssetID: core.ELAAssetID, Value: elacommon.Fixed64(v), ProgramHash: ph}
+		}
+		tx := transaction.CreateTransaction(c.ver, c.tt, 0, &payload.TransferAsset{}, nil, ins, outs, 0, nil)
+		tx.SetParameters(&transaction.TransactionParameters{Transaction: tx, BlockHeight: c.height, Config: params})
+
+		var errOut, errPrec, errFee error
+		pOut, pv := lib.Recover(func() {
+			errOut = tx.CheckTransactionOutput()
+			errPrec = transaction.CheckAssetPrecisionVerif(tx)
+		})
+		pFee, pv2 := lib.Recover(func() { errFee = tx.CheckTransactionFee(refs) })
+		vOut, vFee := verdict(pOut, errOut), verdict(pFee, errFee)
+		if vOut == 0 && errPrec != nil {
+			vOut = 1
+		}
+		fee := int64(0)
+		if vFee == 0 {
+			fee = int64(tx.Fee())
+		}
+		var outVals []int64
+		var outTerms []string
+		for _, o := range c.outs {
+			outVals = append(outVals, o.val)
+			outTerms = append(outTerms, o.coq())
+		}
+		i := next()
+		ver9 := c.ver >= common2.TxVersion09
+		if len(outTerms) > 200 { // corpus cases made of n copies of one output
+			sh.Add(fmt.Sprintf("CTxRep %d %s (P %d %d %d %s %s) %d%%N (%s) %s %d %d %s", i, kindName[k], c.height, c.cah, c.nft,
+				lib.CoqBool(ver9), lib.CoqZi(c.minfee), len(outTerms), outTerms[0], coqZs(c.refs), vOut, vFee, lib.CoqZi(fee)))
+		} else {
+			sh.Add(fmt.Sprintf("CTx %d %s (P %d %d %d %s %s) %s %s %d %d %s", i, kindName[k], c.height, c.cah, c.nft,
+				lib.CoqBool(ver9), lib.CoqZi(c.minfee), lib.CoqList(outTerms), coqZs(c.refs), vOut, vFee, lib.CoqZi(fee)))
+		}
+		logOuts := interface{}(outVals)
+		if len(outVals) > 200 {
+			logOuts = fmt.Sprintf("%d outputs of %d", len(outVals), outVals[0])
+		}
+		in := map[string]interface{}{"op": "tx", "type": c.tt.Name(), "txtype": int(c.tt), "height": c.height, "checkAddressHeight": c.cah,
+			"nftStartHeight": c.nft, "version": int(c.ver), "minFee": c.minfee, "outs": logOuts, "refs": c.refs,
+			"checkOutput": vOut, "checkFee": vFee, "fee": fee, "gen": c.comment}
+		st.LogCase(run.Out, i, in)
+		if pOut || pFee {
+			st.Fail("c01:panic", fmt.Sprintf("amount check panicked: %v %v", pv, pv2), in)
+		}
+		accepted = vOut == 0 && vFee == 0
+		so, sr := bigSum(outVals), bigSum(c.refs)
+		overflowOnly := vOut == 0 && vFee == 1 && !new(big.Int).Sub(sr, so).IsInt64()
+		key := fmt.Sprintf("%s|%d|%d|%d|%d|%d|%v|%v", kindName[k], c.height, c.cah, c.nft, c.ver, c.minfee, outVals, c.refs)
+		kindTag := "rejected-by-output-check"
+		if accepted {
+			kindTag = "accepted"
+		} else if overflowOnly {
+			kindTag = "rejected-overflow"
+		} else if vOut == 0 {
+			kindTag = "rejected-by-fee-check"
+		}
+		st.Count(key, accepted || overflowOnly, kindTag)
+		st.Hist["type:"+c.tt.Name()]++
+		// ---- property oracle (exact arithmetic, independent of the model)
+		if accepted {
+			if so.Cmp(sr) > 0 {
+				st.Fail("c01:accept-inflation", "transaction passed CheckTransactionOutput and CheckTransactionFee although its outputs exceed the outputs it spends (exact integers)", in)
+			}
+			if new(big.Int).Sub(sr, so).Cmp(big.NewInt(fee)) != 0 {
+				st.Fail("c01:fee-not-exact", "fee recorded on an accepted transaction is not inputs-outputs", in)
+			}
+			if k == kStd {
+				for _, v := range outVals {
+					if v < 0 {
+						st.Fail("c01:negative-output", "accepted transaction has a negative output", in)
+					}
+				}
+			}
+			// block side: GetTxFee must agree with the accepted fee
+			allELA := true
+			for _, o := range c.outs {
+				allELA = allELA && o.asset
+			}
+			// (ActivateProducer after NFTStartHeight does not look at asset ids; GetTxFee is per asset)
+			if got := int64(blockchain.GetTxFee(tx, core.ELAAssetID, refs)); allELA && got != fee {
+				st.Fail("c01:GetTxFee-differs", "blockchain.GetTxFee differs from the fee accepted by the checker", in)
+			}
+		}
+		if len(st.Samples) < 3 && accepted && len(outVals) > 1 {
+			st.Sample(in)
+		}
+		return
+	}
+
+	heights := []uint32{0, 88811, 88812, 1404999, 1405000, 1405001, 2000000, 2000000, 2000000}
+	stdCase := func(tt common2.TxType) txCase {
+		c := txCase{tt: tt, height: heights[rng.Intn(len(heights))], cah: 88812, nft: 1405000, ver: common2.TxVersion09, minfee: 100}
+		if rng.Chance(25) {
+			c.ver = common2.TxVersionDefault
+		}
+		if rng.Chance(15) {
+			c.cah = 0
+		}
+		if rng.Chance(10) {
+			c.nft = uint32(rng.PickU64(0, 2000000, 1999999))
+		}
+		switch rng.Intn(6) {
+		case 0:
+			c.minfee = 0
+		case 1:
+			c.minfee = 10000
+		}
+		return c
+	}
+	mkOut := func(v int64, tt common2.TxType, bad bool) outSpec {
+		return genOut(rng, v, bad, !ownPayloadRule[tt])
+	}
+
+	// ---------------- corpus: the repaired defect and boundary cases
+	w := func(vals []int64, refs []int64, comment string) txCase {
+		c := txCase{tt: common2.TransferAsset, height: 2000000, cah: 88812, nft: 1405000, ver: common2.TxVersion09, minfee: 100, refs: refs, comment: comment}
+		for _, v := range vals {
+			o := outSpec{val: v, asset: true, pfx: 0x21, otype: common2.OTNone}
+			o.hash[0] = 0x21
+			o.hash[7] = 9
+			c.outs = append(c.outs, o)
+		}
+		return c
+	}
+	corpus := []txCase{
+		w([]int64{p62, p62, p62, p62}, []int64{10000}, "witness: 4 x 2^62 outputs, one 10000 sela input (passed before the repair)"),
+		w([]int64{p62, p62, p62, p62}, []int64{100}, "witness variant: fee exactly the minimum"),
+		w([]int64{max, max, 2}, []int64{100}, "2*(2^63-1)+2 = 2^64"),
+		w([]int64{max, 1}, []int64{min + 200}, "outputs wrap to MinInt64"),
+		w([]int64{max}, []int64{max, 100}, "input total just above int64"),
+		w([]int64{max - 100}, []int64{max}, "largest amounts, fee 100"),
+		w([]int64{0}, []int64{max, max}, "input total 2^64-2: fee not representable"),
+		w([]int64{1}, []int64{p62, p62, p62, p62, 101}, "inputs wrap to 101"),
+		w([]int64{5}, []int64{104}, "fee 99"),
+		w([]int64{5}, []int64{105}, "fee 100"),
+		w([]int64{5, -1}, []int64{104}, "negative output"),
+		w([]int64{5}, []int64{-3, 108}, "negative reference"),
+		w([]int64{}, []int64{500}, "no outputs"),
+	}
+	for _, tt := range []common2.TxType{common2.RegisterProducer, common2.WithdrawFromSideChain, common2.Voting, common2.CRCProposalWithdraw} {
+		c := w([]int64{p62, p62, p62, p62}, []int64{10000}, "witness on another type")
+		c.tt = tt
+		corpus = append(corpus, c)
+	}
+	{ // ActivateProducer: fee must be 0; outputs unchecked after NFTStartHeight
+		c := w([]int64{p62, p62, p62, p62}, []int64{0}, "activate: outputs wrap to 0, inputs 0")
+		c.tt = common2.ActivateProducer
+		corpus = append(corpus, c)
+		c = w([]int64{300, 400}, []int64{700}, "activate: balanced")
+		c.tt = common2.ActivateProducer
+		corpus = append(corpus, c)
+		c = w([]int64{300}, []int64{}, "activate before NFTStartHeight with an output")
+		c.tt, c.height = common2.ActivateProducer, 1405000
+		corpus = append(corpus, c)
+		c = w([]int64{}, []int64{}, "activate before NFTStartHeight, empty")
+		c.tt, c.height = common2.ActivateProducer, 1405000
+		corpus = append(corpus, c)
+	}
+	{ // output count bound
+		for _, n := range []int{65535, 65536} {
+			vals := make([]int64, n)
+			for i := range vals {
+				vals[i] = 1
+			}
+			corpus = append(corpus, w(vals, []int64{int64(n) + 100}, fmt.Sprintf("%d outputs", n)))
+		}
+	}
+	for _, c := range corpus {
+		runTx(c)
+	}
+	if st.Hist["rejected-overflow"] == 0 {
+		st.Fail("c01:corpus-witness-not-rejected", "the recorded overflow witness is no longer rejected by the overflow guard", nil)
+	}
+
+	// ---------------- generated transactions
+	n := run.N(1500, 60000)
+	for i := 0; i < n; i++ {
+		tt := types[rng.Intn(len(types))]
+		if rng.Chance(35) {
+			tt = []common2.TxType{common2.TransferAsset, common2.TransferAsset, common2.WithdrawFromSideChain, common2.TransferCrossChainAsset,
+				common2.ReturnSideChainDepositCoin, common2.ActivateProducer, common2.RegisterProducer, common2.CRCProposalWithdraw}[rng.Intn(8)]
+		}
+		c := stdCase(tt)
+		k := kinds[tt]
+		nOut := 1 + rng.Intn(6)
+		if rng.Chance(8) {
+			nOut = rng.Intn(71)
+		}
+		if k == kNone && rng.Chance(70) {
+			nOut = 0
+		}
+		if k == kActivate && c.height <= c.nft && rng.Chance(60) {
+			nOut = 0
+		}
+		nRef := 1 + rng.Intn(4)
+		if rng.Chance(5) {
+			nRef = rng.Intn(13)
+		}
+		bad := rng.Chance(25)
+		switch g := rng.Intn(10); {
+		case g < 4: // balanced: refs = outs + fee near the boundary
+			c.comment = "balanced"
+			var vals []int64
+			total := new(big.Int)
+			for j := 0; j < nOut; j++ {
+				v := int64(rng.Intn(1000000))
+				if rng.Chance(30) {
+					v = pickAmount(rng)
+					if v < 0 && rng.Chance(80) {
+						v = -(v + 1)
+					}
+				}
+				if new(big.Int).Add(total, big.NewInt(v)).Cmp(big.NewInt(max-20000)) > 0 || v < 0 && !bad {
+					v = 0
+				}
+				total.Add(total, big.NewInt(v))
+				vals = append(vals, v)
+			}
+			fee := rng.PickI64(0, 1, 99, 100, 101, 9999, 10000, 10001, -1, int64(rng.Intn(100000)))
+			if k == kActivate && rng.Chance(70) {
+				fee = 0
+			}
+			t := total.Int64() + fee
+			if t < 0 {
+				t = 0
+			}
+			if nRef == 0 {
+				nRef = 1
+			}
+			c.refs = splitInto(rng, t, nRef)
+			for _, v := range vals {
+				c.outs = append(c.outs, mkOut(v, tt, bad))
+			}
+		case g < 7: // wrap attack: exact total of outputs (or inputs) = small + m*2^64
+			c.comment = "wrap-attack"
+			target := rng.PickI64(0, 1, 100, 10000, int64(rng.Intn(1000000)))
+			var vals []int64
+			if nOut < 2 {
+				nOut = 2 + rng.Intn(4)
+			}
+			acc := uint64(0)
+			for j := 0; j < nOut-1; j++ {
+				v := int64(rng.U64() >> 1)
+				if rng.Chance(50) {
+					v = rng.PickI64(p62, max, p62+1, max-1, 3*(p62/2))
+				}
+				vals = append(vals, v)
+				acc += uint64(v)
+			}
+			last := int64(uint64(target) - acc) // wrapped total == target
+			if last < 0 && rng.Chance(85) {     // make it individually valid: add one more 2^63-ish amount
+				vals = append(vals, max)
+				acc += uint64(max)
+				last = int64(uint64(target) - acc)
+				if last < 0 {
+					vals = append(vals, 1)
+					acc++
+					last = int64(uint64(target) - acc)
+				}
+			}
+			vals = append(vals, last)
+			if rng.Chance(75) {
+				for _, v := range vals {
+					c.outs = append(c.outs, mkOut(v, tt, false))
+				}
+				c.refs = splitInto(rng, target+rng.PickI64(0, 99, 100, 101, 10000), 1+rng.Intn(3))
+			} else { // the inputs wrap instead
+				c.refs = vals
+				o := target - rng.PickI64(0, 99, 100, 101, 10000)
+				if o < 0 {
+					o = 0
+				}
+				for _, v := range splitInto(rng, o, 1+rng.Intn(3)) {
+					c.outs = append(c.outs, mkOut(v, tt, false))
+				}
+			}
+		default:
+			c.comment = "random"
+			for j := 0; j < nOut; j++ {
+				c.outs = append(c.outs, mkOut(pickAmount(rng), tt, bad))
+			}
+			for j := 0; j < nRef; j++ {
+				c.refs = append(c.refs, pickAmount(rng))
+			}
+		}
+		runTx(c)
+	}
+
+	// ---------------- getTransactionFee directly
+	for i := 0; i < run.N(400, 20000); i++ {
+		var outs, refs []int64
+		for j := rng.Intn(6); j > 0; j-- {
+			outs = append(outs, pickAmount(rng))
+		}
+		for j := rng.Intn(6); j > 0; j-- {
+			refs = append(refs, pickAmount(rng))
+		}
+		if rng.Chance(30) && len(outs) > 0 { // exact difference at the int64 boundaries
+			d := rng.PickI64(max, max-1, min, min+1, 0, 100)
+			so, sr := bigSum(outs), bigSum(refs)
+			need := new(big.Int).Add(so, big.NewInt(d))
+			need.Sub(need, sr) // what must be added to refs
+			if rng.Chance(30) {
+				need.Add(need, big.NewInt(rng.PickI64(1, -1)))
+			}
+			for need.Sign() != 0 && len(refs) < 12 {
+				step := new(big.Int).Set(need)
+				if !step.IsInt64() {
+					if step.Sign() > 0 {
+						step.SetInt64(max)
+					} else {
+						step.SetInt64(min)
+					}
+				}
+				refs = append(refs, step.Int64())
+				need.Sub(need, step)
+			}
+		}
+		var os []*common2.Output
+		for _, v := range outs {
+			os = append(os, &common2.Output{AssetID: core.ELAAssetID, Value: elacommon.Fixed64(v)})
+		}
+		rm := map[*common2.Input]common2.Output{}
+		for _, v := range refs {
+			rm[&common2.Input{}] = common2.Output{AssetID: core.ELAAssetID, Value: elacommon.Fixed64(v)}
+		}
+		tx := transaction.CreateTransaction(common2.TxVersion09, common2.TransferAsset, 0, &payload.TransferAsset{}, nil, nil, os, 0, nil)
+		fee, err := transaction.GetTransactionFeeVerif(tx, rm)
+		k := next()
+		sh.Add(fmt.Sprintf("CFee %d %s %s %s %s", k, coqZs(refs), coqZs(outs), lib.CoqBool(err == nil), lib.CoqZi(int64(fee))))
+		in := map[string]interface{}{"op": "getTransactionFee", "refs": refs, "outs": outs, "ok": err == nil, "fee": int64(fee)}
+		st.LogCase(run.Out, k, in)
+		exact := new(big.Int).Sub(bigSum(refs), bigSum(outs))
+		st.Count(fmt.Sprintf("fee|%v|%v", refs, outs), err == nil && exact.Sign() != 0 || err != nil, "getTransactionFee")
+		if err == nil && exact.Cmp(big.NewInt(int64(fee))) != 0 {
+			st.Fail("c01:getTransactionFee-inexact", "getTransactionFee returned a value different from the exact difference without an error", in)
+		}
+		if err != nil && exact.IsInt64() {
+			st.Fail("c01:getTransactionFee-spurious-error", "getTransactionFee failed although the exact difference is representable", in)
+		}
+	}
+
+	// ---------------- blockchain.GetTxFee (wrapping sums, per asset)
+	for i := 0; i < run.N(300, 10000); i++ {
+		type av struct {
+			v   int64
+			ela bool
+		}
+		gen := func(n int) (l []av) {
+			for j := 0; j < n; j++ {
+				l = append(l, av{pickAmount(rng), !rng.Chance(15)})
+			}
+			return
+		}
+		outs, refs := gen(rng.Intn(5)), gen(rng.Intn(5))
+		other := core.ELAAssetID
+		other[0] ^= 1
+		asset := func(b bool) elacommon.Uint256 {
+			if b {
+				return core.ELAAssetID
+			}
+			return other
+		}
+		var os []*common2.Output
+		var ot, rt []string
+		for _, o := range outs {
+			os = append(os, &common2.Output{AssetID: asset(o.ela), Value: elacommon.Fixed64(o.v)})
+			ot = append(ot, fmt.Sprintf("(%s, %s)", lib.CoqZi(o.v), lib.CoqBool(o.ela)))
+		}
+		rm := map[*common2.Input]common2.Output{}
+		for _, o := range refs {
+			rm[&common2.Input{}] = common2.Output{AssetID: asset(o.ela), Value: elacommon.Fixed64(o.v)}
+			rt = append(rt, fmt.Sprintf("(%s, %s)", lib.CoqZi(o.v), lib.CoqBool(o.ela)))
+		}
+		tx := transaction.CreateTransaction(common2.TxVersion09, common2.TransferAsset, 0, &payload.TransferAsset{}, nil, nil, os, 0, nil)
+		fee := int64(blockchain.GetTxFee(tx, core.ELAAssetID, rm))
+		k := next()
+		sh.Add(fmt.Sprintf("CFeeMap %d %s %s %s", k, lib.CoqList(rt), lib.CoqList(ot), lib.CoqZi(fee)))
+		st.LogCase(run.Out, k, map[string]interface{}{"op": "GetTxFee", "refs": refs, "outs": outs, "fee": fee})
+		st.Count(fmt.Sprintf("feemap|%v|%v", refs, outs), fee != 0, "GetTxFee")
+	}
+
+	// ---------------- the totalTxFee += loop of checkTxsContext (inline there; the same
+	// Fixed64 additions replicated here to tie wrap64 to Go's int64 arithmetic)
+	for i := 0; i < run.N(100, 2000); i++ {
+		var fees []int64
+		var total elacommon.Fixed64
+		for j := rng.Intn(8); j > 0; j-- {
+			f := pickAmount(rng)
+			fees = append(fees, f)
+			total += elacommon.Fixed64(f)
+		}
+		k := next()
+		sh.Add(fmt.Sprintf("CBlock %d %s %s", k, coqZs(fees), lib.CoqZi(int64(total))))
+		st.LogCase(run.Out, k, map[string]interface{}{"op": "totalTxFee", "fees": fees, "total": int64(total)})
+		st.Count(fmt.Sprintf("blk|%v", fees), total != 0, "totalTxFee")
+	}
+	var _ interfaces.Transaction
+	st.Traces = st.Evals
+	sh.Flush()
+	st.Write(run.Out)
 }
